@@ -9,6 +9,7 @@ import (
 	"path/filepath"
 	"sort"
 	"strings"
+	"testing/iotest"
 
 	"github.com/ipfs/go-cid"
 	carv2 "github.com/ipld/go-car/v2"
@@ -114,6 +115,10 @@ func runC03(c any, x *kit.Ctx) {
 			src = bytes.NewReader(file)
 		case "stream":
 			src = drv.PlainReader{R: bytes.NewReader(file)}
+		case "onebyte":
+			src = iotest.OneByteReader(bytes.NewReader(file)) // short reads: an environment deviation
+		case "half":
+			src = iotest.HalfReader(bytes.NewReader(file))
 		case "rs":
 			src = rsOnly{bytes.NewReader(file)}
 		case "file":
@@ -310,7 +315,7 @@ func genC03(tier string, emit func(any)) {
 	for _, sq := range seqs {
 		for _, cont := range conts {
 			for _, kind := range []string{"mh", "sorted", "insertion"} {
-				apis := []string{"gen-bytes", "gen-file", "gen-stream"}
+				apis := []string{"gen-bytes", "gen-file", "gen-stream", "gen-onebyte", "gen-half"}
 				if kind != "insertion" {
 					apis = append(apis, "rog-bytes", "rog-file", "rog-rs", "ro-at", "ro-bytes")
 				} else {
@@ -343,7 +348,7 @@ func init() {
 		Run:    runC03,
 		Decode: kit.DecodeAs[C03Case],
 		Rule: "every payload (block sequences up to the bound incl. duplicates, equal digests under different hash functions/codecs, identity, mixed widths) laid out by the reference encoder as CARv1/CARv2 (padded, with embedded index, with null padding) x index kind x API and source kind " +
-			"(GenerateIndex/LoadIndex over bytes.Reader, *os.File, plain stream; ReadOrGenerateIndex; NewReadOnly; OpenReadable) x StoreIdentityCIDs x ZeroLengthSectionAsEOF x MaxIndexCidSize; every alphabet CID is queried; non-trivial = >=2 records or a repeated digest",
+			"(GenerateIndex/LoadIndex over bytes.Reader, *os.File, plain stream, one-byte and half-buffer short-read streams; ReadOrGenerateIndex; NewReadOnly; OpenReadable) x StoreIdentityCIDs x ZeroLengthSectionAsEOF x MaxIndexCidSize; every alphabet CID is queried; non-trivial = >=2 records or a repeated digest",
 		Bound: func(tier string) map[string]any {
 			if tier == "thorough" {
 				return map[string]any{"seq_len": 3, "alphabet": 12}
